@@ -1,1 +1,61 @@
-From PdfV Require Import Model.StackParser.
+(* C01 -- Object syntax: every conformant spelling of a value reads back as that
+   value.  Property theorems only.
+   Layers: bytes --(Model/Lexer: chunked scanners = byte automaton, C14)--> tokens
+           --(Model/StackParser: nextobject + do_keyword)--> values.
+   FULL STATEMENT (the property): for every value v, every ISO-conformant byte
+   spelling s of v, every BUFSIZ and offset, reading s yields v.
+   PROVED HERE: (a) the object layer for every value tree of any depth over the
+   token sequence of v (C01_object_layer, C01_stream_toplevel, C01_pdf_indirect_object,
+   C01_ref_any_generation); (b) independence of BUFSIZ and offset for every byte
+   string (C01_bufsize_offset_independent, from C14).  The passage from byte
+   spellings to tokens is proved per scalar kind in Props/C01Tokens.v when present;
+   the composition for whole composite spellings is covered by correspondence only --
+   hence the suffix _partial on the end-to-end claim. *)
+From Coq Require Import ZArith List Bool String.
+From PdfV Require Import Base.CV Gen.LexClasses Model.Lexer Model.StackParser Model.StackRun
+  Proofs.LexerProofs Proofs.LexerInv Proofs.StackProofs.
+Import ListNotations.
+Open Scope Z_scope.
+Open Scope string_scope.
+
+(* any value tree, any depth, inside any open container (or anywhere in a PDFParser):
+   reading its tokens pushes exactly the value (null-valued entries absent, last key wins) *)
+Theorem C01_object_layer : forall (fl : flavour) (v : value), wfv v ->
+  forall s rest, stable fl s ->
+    run_toks fl s (tprint v ++ rest) = run_toks fl (push (norm v) s) rest.
+Proof. exact reads_back_all. Qed.
+
+Theorem C01_stream_toplevel : forall v, wfv v -> (forall n, v <> VRef n) ->
+  parse_all PStream (tprint v) = Ok [norm v].
+Proof. exact stream_toplevel. Qed.
+
+Theorem C01_pdf_indirect_object : forall n g v, wfv v ->
+  parse_all PPdf ([TInt n; TInt g; TKw K_obj] ++ tprint v ++ [TKw K_endobj])
+  = Ok [VInt n; VInt g; VKw K_obj; norm v].
+Proof. exact pdf_indirect_object. Qed.
+
+Theorem C01_ref_any_generation : forall fl n g s rest, stable fl s ->
+  run_toks fl s ([TInt n; TInt g; TKw K_R] ++ rest) = run_toks fl (push (VRef n) s) rest.
+Proof. exact ref_any_generation. Qed.
+
+(* the tokens handed to the object layer do not depend on BUFSIZ or on the offset *)
+Theorem C01_bufsize_offset_independent : forall (b : nat) (pos : Z) (data : list Z), (0 < b)%nat ->
+  option_map (map snd) (tokenize b pos data) = Some (map snd (lex 0 data)).
+Proof.
+  intros b pos data Hb. rewrite tokenize_lex by exact Hb. cbn [option_map]. f_equal.
+  rewrite lex_offset, map_map. apply map_ext. intros [p t]. reflexivity.
+Qed.
+
+(* non-vacuity: a nested value with escapes, spelled with minimal delimiters and comments *)
+Example C01_nonvacuous :
+  (* [/A#42(<\(()>\101\<LF>)<</K[1 -2.5]/N null/R 3 0 R>>%c<LF><4 1<LF>4a>true] *)
+  run_parse_stream (hx "5b2f41233432283c5c2828293e5c3130315c0a293c3c2f4b5b31202d322e355d2f4e206e756c6c2f522033203020523e3e25630a3c3420310a34613e747275655d")
+  = (CL [(CZ 0); (CL [(CL [(CZ 6); (CL [(CL [(CZ 4); (CB (hx "4142"))]); (CL [(CZ 5); (CB (hx "3c2828293e41"))]); (CL [(CZ 7); (CL [(CL [(CB (hx "4b")); (CL [(CZ 6); (CL [(CL [(CZ 2); (CZ 1)]); (CL [(CZ 3); (CZ (-5)); (CZ 2)])])])]); (CL [(CB (hx "52")); (CL [(CZ 8); (CZ 3)])])])]); (CL [(CZ 5); (CB (hx "414a"))]); (CL [(CZ 1); (CZ 1)])])])])]).
+Proof. vm_compute. reflexivity. Qed.
+
+Print Assumptions C01_object_layer.
+Print Assumptions C01_stream_toplevel.
+Print Assumptions C01_pdf_indirect_object.
+Print Assumptions C01_ref_any_generation.
+Print Assumptions C01_bufsize_offset_independent.
+Print Assumptions C01_nonvacuous.
